@@ -32,6 +32,9 @@ func init() {
 	register(&core.Rule{ID: "C18.4", Prop: "C18", MinSites: 7,
 		Desc: "transient tables: EINTR/ECONNRESET/ECONNABORTED/EAGAIN on accept, EAGAIN on read/write and EINTR on the wait lead to continue/return nil without closing or failing anything",
 		Run: runC18_4})
+	register(&core.Rule{ID: "C18.7", Prop: "C18", MinSites: 4,
+		Desc: "edge-triggered acceptors drain: a listener callback registered with edgeTriggered=true returns nil only on the EAGAIN edge, and its transient errnos (EINTR, ECONNRESET, ECONNABORTED) lead back to the accept loop",
+		Run: runC18_7})
 	register(&core.Rule{ID: "C18.5", Prop: "C18", MinSites: 1,
 		Desc: "registration failure: when adding the conn to the poller fails, register0 closes the descriptor and releases the conn before returning, without any handler callback",
 		Run: runC18_5})
@@ -642,4 +645,133 @@ func runC18_6(c *core.Ctx) {
 				"a new explicit panic/fatal exit was added to library code: a condition on one connection (or a bad argument) now brings the whole process down")
 		}
 	})
+}
+
+func runC18_7(c *core.Ctx) {
+	v := vocabOf(c)
+	if v == nil {
+		return
+	}
+	addRead := c.P.Func("pkg/netpoll", "Poller.AddRead")
+	pack := c.P.Func("", "listener.packPollAttachment")
+	if !c.Need("Poller.AddRead", addRead) || !c.Need("listener.packPollAttachment", pack) {
+		return
+	}
+	// handlers registered edge-triggered
+	etHandlers := map[*types.Func]token.Pos{}
+	for _, f := range v.funcs {
+		for _, call := range callsIn(f.Decl.Body, true) {
+			if !flow.IsCall(f.Info, call, addRead) || len(call.Args) != 2 {
+				continue
+			}
+			cv := flow.ConstOf(f.Info, call.Args[1])
+			if cv == nil || cv.String() != "true" {
+				continue
+			}
+			inner, ok := ast.Unparen(call.Args[0]).(*ast.CallExpr)
+			if !ok || !flow.IsCall(f.Info, inner, pack) || len(inner.Args) != 1 {
+				continue
+			}
+			if sel, ok := ast.Unparen(inner.Args[0]).(*ast.SelectorExpr); ok {
+				if s, ok := f.Info.Selections[sel]; ok {
+					if h, ok := s.Obj().(*types.Func); ok {
+						etHandlers[h] = call.Pos()
+					}
+				}
+			}
+		}
+	}
+	if len(etHandlers) == 0 {
+		c.Violate("gnet", "edge-triggered listener registration", token.NoPos, "no listener callback registered with edgeTriggered=true was found (the main reactor registers accept0 that way)")
+		return
+	}
+	for h := range etHandlers {
+		f := fnOf(c, h)
+		if f == nil {
+			continue
+		}
+		g := f.Graph()
+		heads := g.LoopHeads()
+		// (a) nil returns only under EAGAIN
+		const fAgain = 1
+		p := &flow.Problem{Must: true}
+		p.Edge = func(e *flow.Edge, in uint64) uint64 {
+			if heads[e.To] {
+				return 0
+			}
+			if e.Cond == nil || !e.Sense {
+				return in
+			}
+			if e.Tag != nil {
+				if o := flow.ObjOf(f.Info, e.Cond); o != nil && o.Pkg() != nil && o.Pkg().Path() == unixPkg && o.Name() == "EAGAIN" && isErrorType(f.Info.TypeOf(e.Tag)) {
+					in |= fAgain
+				}
+			} else if isErrnoCmp(f, e.Cond, "EAGAIN") {
+				in |= fAgain
+			}
+			return in
+		}
+		p.Node = func(b *flow.Block, i int, n ast.Node, in uint64) uint64 {
+			if i == 0 && heads[b] {
+				return 0
+			}
+			return in
+		}
+		sol := g.Solve(p)
+		k := 0
+		sol.AtExit(func(b *flow.Block, facts uint64) {
+			r := b.Return
+			if len(r.Results) != 1 || !flow.IsNil(f.Info, r.Results[0]) {
+				return
+			}
+			k++
+			c.Check(facts&fAgain != 0, f.Name, "return nil #"+itoa(k), r.Pos(), "the accept queue was drained (EAGAIN)",
+				"an edge-triggered acceptor returns nil without having seen EAGAIN: connections still waiting in the accept queue produce no further event and are never accepted until an unrelated connection arrives", sol.Witness(b, fAgain)...)
+		})
+		// (b) transient errnos loop
+		for _, en := range []string{"EINTR", "ECONNRESET", "ECONNABORTED"} {
+			var starts []*flow.Block
+			for _, b := range g.Blocks {
+				for _, e := range b.Succs {
+					if e.Cond == nil || !e.Sense {
+						continue
+					}
+					if e.Tag != nil {
+						if o := flow.ObjOf(f.Info, e.Cond); o != nil && o.Pkg() != nil && o.Pkg().Path() == unixPkg && o.Name() == en {
+							starts = append(starts, e.To)
+						}
+					} else if isErrnoCmp(f, e.Cond, en) {
+						starts = append(starts, e.To)
+					}
+				}
+			}
+			if len(starts) == 0 {
+				continue // C18.4 reports the missing table entry
+			}
+			returns := false
+			seen := map[*flow.Block]bool{}
+			var dfs func(b *flow.Block)
+			dfs = func(b *flow.Block) {
+				if seen[b] {
+					return
+				}
+				seen[b] = true
+				if b.Return != nil {
+					returns = true
+					return
+				}
+				for _, e := range b.Succs {
+					if heads[e.To] {
+						continue
+					}
+					dfs(e.To)
+				}
+			}
+			for _, s := range starts {
+				dfs(s)
+			}
+			c.Check(!returns, f.Name, "transient "+en+" retries the accept", f.blockPos(starts[0]), "control goes back to the accept loop",
+				"on "+en+" the edge-triggered acceptor returns instead of retrying: the remaining queued connections get no event any more")
+		}
+	}
 }
